@@ -102,6 +102,38 @@ def build_calls(quick):
     return calls
 
 
+def keyword_calls():
+    """Every word that is a key of a class-level table of any dialect's tokenizer or parser (keywords, function names, no-paren
+    function parsers, property / statement / constraint parsers ...), placed where an ordinary identifier may stand, in the base
+    dialect and in the first dialect that declares it. Their digests depend on exactly the tables a call may leave modified."""
+    import re
+
+    from sqlglot.dialects.dialect import Dialect
+    from vlib import corpus
+
+    pat = re.compile(r"^[A-Z_][A-Z0-9_]*$")
+    words: dict[str, str] = {}
+    for d in [""] + corpus.all_dialects():
+        D = Dialect.get_or_raise(d or None)
+        for cls in (D.tokenizer_class, D.parser_class):
+            for a in sorted(dir(cls)):
+                if not a.isupper():
+                    continue
+                v = getattr(cls, a, None)
+                if isinstance(v, (dict, set, frozenset, tuple, list)):
+                    for k in v:
+                        if isinstance(k, str):
+                            for w in k.upper().split():
+                                if pat.match(w):
+                                    words.setdefault(w, d)
+    from vlib.procmatrix import kw_specs
+
+    out = []
+    for w in sorted(words):
+        out.extend(kw_specs(w, sorted({"", words[w]})))
+    return out
+
+
 def witness_calls():
     sets = [["a", "b"], ["p", "q", "r"], ["x = 1", "y = 2", "p"], ["t1", "t2", "t3"], ["x", "y"], ["alpha", "beta", "gamma", "delta"]]
     return [[f"w{i}", "setorder", s] for i, s in enumerate(sets)]
@@ -146,7 +178,8 @@ def run(ctx: Ctx) -> None:
     calls = build_calls(quick)
     wit = witness_calls()
     reuse = reuse_calls(quick)
-    by_id = {c[0]: c for c in calls + wit + reuse}
+    kw = keyword_calls()
+    by_id = {c[0]: c for c in calls + wit + reuse + kw}
     tmpdir = tempfile.mkdtemp(prefix="verif_c15_")
     cells = []   # (label, seed, specs)
     for seed in range(S):
@@ -194,6 +227,13 @@ def run(ctx: Ctx) -> None:
         cells.append((f"cold/{d}", 0, specs))
         cells.append((f"warm/{d}", 0, [[f"pre_{d}", "preload", [x for x in all_d if x != d]]] + specs))
         coldwarm.append(d)
+    # keyword probes: alone in a cold process (canonical), after the whole forward history of successful calls, and after a
+    # history of FAILING inputs (P slices of: every token prefix / single-token deletion of every dialect-test statement)
+    P = 16
+    cells.append(("kw/cold", 0, kw))
+    cells.append(("kw/after_forward", 0, calls + kw))
+    for k in range(P):
+        cells.append((f"poison/{k}", 0, [[f"poison{k}", "poison", k, P]] + kw + calls[k % 3::3]))
     cells.append(("reuse", 0, reuse))
     cells.append(("reuse/seed3", 3, reuse))
     # run with bounded parallelism
@@ -219,15 +259,40 @@ def run(ctx: Ctx) -> None:
         raise HarnessError(f"matrix child failed: {crashed[:2]}")
     canonical = results["seed0/forward"]
     viol = {}
+    table_leads: list = []
+    aux_needed: dict = {}
+    aux_pending: list = []
     compared = 0
     for label, digs in results.items():
         if label.startswith("reuse"):
             continue
         for cid, dg in digs.items():
+            if cid.startswith("leads@"):
+                table_leads.extend(dg)
+                continue
+            if "@" in cid:
+                # probe made inside a poison cell right after the failing input `dg[1]` changed a class-level table
+                pid_, text_, d_ = cid.split("@")[0], dg[1], dg[2]
+                w_, pd_, j_ = pid_.split("|")[1:4]
+                from vlib.procmatrix import kw_specs as _kw
+                spec = next(sp for sp in _kw(w_, [pd_]) if sp[0] == pid_)
+                ref = results["kw/cold"].get(pid_)
+                if ref is None:
+                    aux_needed.setdefault(pid_, spec)
+                    aux_pending.append((pid_, dg, label))
+                    continue
+                compared += 1
+                if dg[0] != ref:
+                    sig = f"C15|history|after_failing_input|{w_}|{pd_ or 'base'}"
+                    viol.setdefault(sig, {"what": f"after the failing input {text_!r:.200} ({d_ or 'base'}), {spec[2]!r} ({pd_ or 'base'}) no longer gives what it gives in a cold process",
+                                          "case": {"spec": spec, "cell": label, "history": [["h0", "parse_any", text_, d_]]}, "count": 0})["count"] += 1
+                continue
             base_id = cid.split("#")[0]
             if base_id.startswith("w"):
                 continue
             ref = canonical.get(base_id)
+            if ref is None and base_id.startswith("k"):
+                ref = results["kw/cold"].get(base_id)
             if ref is None and base_id.startswith("cw_"):
                 ref = results[f"cold/{base_id.split('_')[1]}"].get(base_id)
             if ref is None:
@@ -239,9 +304,30 @@ def run(ctx: Ctx) -> None:
             if dg != ref:
                 spec = by_id[base_id]
                 kind = "hash_seed" if label.startswith("seed") and label.endswith("forward") else "history"
-                sig = f"C15|{kind}|{spec[1]}|{label.split('/')[-1] if not label.startswith('seed') else label.split('/')[1]}"
-                viol.setdefault(sig, {"what": f"call {spec[1:]!r:.300} gives a different result in cell {label} than in seed0/forward",
-                                      "case": {"spec": spec, "cell": label}, "count": 0})["count"] += 1
+                where = "after_failing_inputs" if label.startswith("poison/") else label.split('/')[-1] if not label.startswith('seed') else label.split('/')[1]
+                sig = f"C15|{kind}|{spec[1]}|{where}"
+                case = {"spec": spec, "cell": label}
+                if label.startswith("poison/"):
+                    case["history"] = [[f"poison{label.split('/')[1]}", "poison", int(label.split('/')[1]), P]]
+                viol.setdefault(sig, {"what": f"call {spec[1:]!r:.300} gives a different result in cell {label} than in " + ("a cold process" if base_id.startswith("k") else "seed0/forward"),
+                                      "case": case, "count": 0})["count"] += 1
+    if aux_needed:
+        # probes of words no table declared in that dialect: their cold answers are computed now, in one more fresh process
+        tmp2 = tempfile.mkdtemp(prefix="verif_c15_")
+        p_, out_ = run_process(0, list(aux_needed.values()), tmp2, "aux")
+        p_.communicate()
+        cold2 = json.load(open(out_))
+        for f in os.listdir(tmp2):
+            os.unlink(os.path.join(tmp2, f))
+        os.rmdir(tmp2)
+        for pid_, dg, label in aux_pending:
+            compared += 1
+            if dg[0] != cold2.get(pid_):
+                w_, pd_ = pid_.split("|")[1:3]
+                spec = aux_needed[pid_]
+                sig = f"C15|history|after_failing_input|{w_}|{pd_ or 'base'}"
+                viol.setdefault(sig, {"what": f"after the failing input {dg[1]!r:.200} ({dg[2] or 'base'}), {spec[2]!r} ({pd_ or 'base'}) no longer gives what it gives in a cold process",
+                                      "case": {"spec": spec, "cell": label, "history": [["h0", "parse_any", dg[1], dg[2]]]}, "count": 0})["count"] += 1
     for label in ("reuse", "reuse/seed3"):
         for cid, ans in results[label].items():
             compared += 1
@@ -290,6 +376,8 @@ def run(ctx: Ctx) -> None:
             "calls": len(calls),
             "reuse_histories": len(reuse),
             "order_coverage_witness": witness,
+            "keyword_probe_calls": len(kw),
+            "class_table_changes_seen_after_failing_inputs": table_leads[:20],
             "exhaustive": True,
             "samples": [calls[0], calls[len(calls) // 2], reuse[len(reuse) // 2]],
         },
@@ -316,6 +404,15 @@ def replay(ctx: Ctx, case: dict) -> bool:
             ans = json.load(open(out))[spec[0]]
             print(ans)
             return ans != "same"
+        if case.get("history"):
+            p, out = run_process(0, case["history"] + [spec], tmpdir, "h")
+            p.communicate()
+            after = json.load(open(out))[spec[0]]
+            p, out = run_process(0, [spec], tmpdir, "a")
+            p.communicate()
+            alone = json.load(open(out))[spec[0]]
+            print("after the recorded history:", after, "alone:", alone)
+            return after != alone
         for seed in range(8):
             p, out = run_process(seed, [spec], tmpdir, f"s{seed}")
             p.communicate()
